@@ -498,6 +498,31 @@ class C15(PlayCheck):
         return None
 
 
+def rook_tour(w, h):
+    """K+R v K, rook on a1, kings h1 / h8: the rook walks a closed tour of the w x h rectangle at a1 twice (h even),
+    the white king steps to h2 before the last move of the first lap and back to h1 at the very end, the black king
+    shuffles h8-g8. No position recurs until the last move, which restores the start position after 4wh+4 plies."""
+    cyc = [(c, 0) for c in range(w)]
+    for r in range(1, h):
+        cols = range(w - 1, 0, -1) if r % 2 == 1 else range(1, w)
+        cyc += [(c, r) for c in cols]
+    cyc += [(0, r) for r in range(h - 1, 0, -1)]
+    assert len(cyc) == w * h and len(set(cyc)) == w * h
+    name = lambda sq: "abcdefgh"[sq[0]] + str(sq[1] + 1)
+    white = []
+    for lap in range(2):
+        for i in range(w * h):
+            if lap == 0 and i == w * h - 1:
+                white.append("h1h2")
+            white.append(name(cyc[i]) + name(cyc[(i + 1) % (w * h)]))
+    white.append("h2h1")
+    ops = []
+    for k, mv in enumerate(white):
+        ops.append(mv + ":0")
+        ops.append(("h8g8" if k % 2 == 0 else "g8h8") + ":0")
+    return " ".join(ops)
+
+
 class C11(PlayCheck):
     pid = "C11"
     props_module = "TcheranVerif.Props.C11"
@@ -516,6 +541,7 @@ class C11(PlayCheck):
                 if line.strip() and not line.startswith("#"):
                     fen, ops = line.rstrip("\n").split("\t")
                     tours.append(f"play\t{fen}\t{ops}\n")
+        tours += [f"play\t7k/8/8/8/8/8/8/R6K w - - 0 1\t{rook_tour(w, h)}\n" for (w, h) in ((5, 6), (4, 6), (6, 4), (3, 6))]
         with open(req) as f:
             rest = f.read()
         with open(req, "w") as f:
